@@ -90,16 +90,19 @@ def run(rep: core.Report):
     eb = trb.function(be)[0].expr
     rep.instance("R19b", RD, "bose_einstein_dist", "1/(exp(THzToEv x/(Kb t)) - 1)", symalg.is_zero(sp.simplify(eb - want_n))[0], f"bose_einstein_dist is {eb}", line=be.lineno)
     gp = core.find_def(TD, "ThermalMotion._get_population")
+    # by role: what the function returns directly, and what it stores into the array it returns
     pops = []
+    returned = {r.value.id for r in ast.walk(gp) if isinstance(r, ast.Return) and isinstance(r.value, ast.Name)}
+    trp = symalg.PyTranslator({**UNITS, gp.args.args[1].arg: F, gp.args.args[2].arg: T}, sub_hook=lambda t_, n_, tr_, env_: T if t_.startswith(gp.args.args[2].arg + "[") else None, where="_get_population")
+    lenv = symalg.local_env(trp, gp)
     for r in ast.walk(gp):
         v = None
-        if isinstance(r, ast.Return) and r.value is not None and "np.exp" in core.src(r.value):
+        if isinstance(r, ast.Return) and r.value is not None and not isinstance(r.value, (ast.Name, ast.Constant)):
             v = r.value
-        if isinstance(r, ast.Assign) and "np.exp" in core.src(r.value):
+        if isinstance(r, ast.Assign) and isinstance(r.targets[0], ast.Subscript) and isinstance(r.targets[0].value, ast.Name) and r.targets[0].value.id in returned:
             v = r.value
         if v is not None:
-            trp = symalg.PyTranslator({**UNITS, "freq": F, "t": T}, sub_hook=lambda t_, n_, tr_, env_: T if t_.startswith("t[") else None, where="_get_population")
-            pops.append((r, trp.expr(v, {})))
+            pops.append((r, trp.expr(v, lenv)))
     if len(pops) < 2:
         raise AnalysisError("ThermalMotion._get_population: population expressions vanished")
     for r, e in pops:
@@ -233,11 +236,10 @@ def _r19g(rep):
         asserts = [a for a in ast.walk(fn) if isinstance(a, ast.Assert) and "mesh_numbers" in core.src(a.test)]
         ok_a = len(asserts) == 1 and symalg.same(symalg.open_expr(core.src(asserts[0].test.left)), symalg.open_expr("np.prod(self._iter_mesh.mesh_numbers)"))[0] and symalg.same(symalg.open_expr(core.src(asserts[0].test.comparators[0])), symalg.open_expr("count + 1"))[0]
         rep.instance("R19g", TD, qn, "count + 1 == number of grid points (unreduced mesh)", ok_a, "nothing ties the divisor to the number of grid points", line=fn.lineno, nontrivial=False)
+    # the per-atom matrix, in the function's own environment (a temporary for the outer product changes nothing)
     dm = core.find_def(TD, f"{M}._get_disp_matrices")
     core.require_names(dm, ["c", "v", "m", "i"], f"{TD}::{M}._get_disp_matrices")
-    cs = [st for st in ast.walk(dm) if isinstance(st, ast.Assign) and isinstance(st.targets[0], ast.Subscript) and core.src(st.targets[0].value) == "c"]
-    ok_c = len(cs) == 1 and symalg.same(symalg.open_expr(core.src(cs[0].value)), symalg.open_expr("np.outer(v, v.conj()) / m"))[0] and core.src(cs[0].targets[0].slice) == "i"
-    rep.instance("R19g", TD, f"{M}._get_disp_matrices", "c[i] = outer(e_i, conj(e_i)) / m_i", ok_c, "the per-atom matrix is not e e^dagger / m stored for atom i", line=dm.lineno)
+    sites.check(rep, "R19g", TD, f"{M}._get_disp_matrices", "assign", "c[i]", "np.outer(v, v.conj()) / m", "the per-atom matrix is not e e^dagger / m stored for atom i")
 
 
 def _r19f(rep):
